@@ -1,6 +1,10 @@
 #!/bin/sh
-# mutq.sh "<pid> <tag> [crate demo]" ... : process finished seeding agents one after the other (logs /root/pm_<pid>_<tag>.log)
+# mutq.sh "<pid> <tag> [crate demo]" ... : process finished seeding agents one after the other (logs /root/pm_<pid>_<tag>.log);
+# concurrent invocations queue up behind a lock
 cd "$(dirname "$0")/.."
+mkdir -p .build
+exec 9> .build/mutq.lock
+flock 9
 for job in "$@"; do
   set -- $job
   lc=$(echo "$1" | tr 'A-Z' 'a-z')
